@@ -61,6 +61,10 @@ class GDevice(Device):
 
   @cost_coeffs.setter
   def cost_coeffs(self, cost):
+    if np.array(cost).ndim not in (1, 2):
+      raise ValueError('cost param must be array with 1 or 2 dimensions.')
+    if np.array(cost).ndim == 2 and len(cost) != len(self):
+      raise ValueError('per-slot cost coefficients need one row per slot (%d)' % (len(self),))
     self._cost_coeffs = cost
     if np.array(cost).ndim == 1:
       self._cost_fn = np.poly1d(cost)
